@@ -255,6 +255,20 @@ Definition zero_sh (t : ty) : shape :=
   | TyArr | TyObj => ShNull
   end.
 
+(* what is known about a value of shape s once it is known to have type t *)
+Definition refine_ty (t : ty) (s : shape) : shape :=
+  match s with
+  | ShOpt s' => if sure_ty t s' then s' else s
+  | ShAny => match t with
+             | TyArr => ShArr ShAny
+             | TyStr => ShStr
+             | TyNum => ShNum
+             | TyBool => ShBool
+             | TyObj => ShAny                (* the keys of an arbitrary object are not known to be distinct *)
+             end
+  | _ => s
+  end.
+
 Definition strip (s : shape) : shape := match s with ShOpt s' => s' | _ => s end.
 
 Definition can_be_null (s : shape) : bool :=
@@ -311,6 +325,10 @@ Fixpoint aeval (e : expr) (G : aenv) : option shape :=
                   else if never_ty t s then Some (zero_sh t)
                   else match t, s with
                        | TyArr, ShOpt (ShArr _) | TyArr, ShOpt (ShArr1 _) | TyObj, ShOpt (ShObj _ _) => Some s
+                       | TyArr, ShAny => Some (ShOpt (ShArr ShAny))
+                       | TyStr, ShAny => Some ShStr
+                       | TyNum, ShAny => Some ShNum
+                       | TyBool, ShAny => Some ShBool
                        | _, _ => Some ShAny
                        end
       | None => None
@@ -376,7 +394,7 @@ Fixpoint check (s : stmt) (G : aenv) : bool :=
       | Some sh =>
           if sure_ty t sh then check a ((x, sh) :: G)
           else if never_ty t sh then check b ((x, zero_sh t) :: G)
-          else check a ((x, match sh with ShOpt s' => if sure_ty t s' then s' else sh | _ => sh end) :: G)
+          else check a ((x, refine_ty t sh) :: G)
                && check b ((x, zero_sh t) :: G)
       | None => false
       end
